@@ -49,6 +49,7 @@ Written(r) == IF r.alias THEN "~" \o r.n ELSE r.n
 Resolve(r, prefix) == IF r.alias THEN prefix \o "/" \o r.n ELSE r.n
 \* statements of template trees (machine K links them, see TwLink): unlinked forms as written in a file ...
 Reserve(n, ln)         == [k |-> "reserve", name |-> n, ln |-> ln]
+UseS(r, ln)            == [k |-> "use", ref |-> r, ln |-> ln]          \* a @use written somewhere inside a file's body
 InsertB(n, body, ln)   == [k |-> "insert", name |-> n, form |-> "block", body |-> body, ln |-> ln]
 InsertE(n, e, ln)      == [k |-> "insert", name |-> n, form |-> "expr", e |-> e, ln |-> ln]
 Comp(n, args, slots, ln) == [k |-> "comp", name |-> n, args |-> args, slots |-> slots, ln |-> ln]   \* args: seq of [key, ex]; slots: seq of [name, body]
@@ -239,6 +240,7 @@ Step ==
                         [] s.k = "xslot" -> StepInline(s.body)
                         [] s.k \in {"reserve", "insert", "slot"} -> StepSkip
                         [] s.k = "comp" -> Stop("unspec", "component that was never linked", 0)
+                        [] s.k = "use" -> Stop("unspec", "a @use inside a block: what it means for a page is not specified", 0)
 
 \* the root scope is built from the data map (object.EnvFromMap): 'loop' cannot be supplied as data (C04)
 RECURSIVE RootScope(_, _)
